@@ -143,7 +143,7 @@ def run_property(pid, tier, seed, update_lock=False, only=None, verbose=False):
     timeout_ms = 20000 if tier == "quick" else 120000
     extract.clear_cache()
     reg = build_registry(modnames)
-    targets = [t for t, c in reg.contracts.items() if pid in c.properties]
+    targets = [t for t, c in reg.contracts.items() if pid in c.properties and not c.call_only]
     if only:
         targets = [t for t in targets if only in t]
     if not targets:
@@ -247,6 +247,7 @@ def run_property(pid, tier, seed, update_lock=False, only=None, verbose=False):
     # ---- evidence
     trusted = ["pyvc encoder (self-built VC generator; mutants and CPython cross-checks in thorough tier)", "z3 5.1.0 (python API)", "cvc5 1.0.3 CLI for obligations z3 leaves unknown"]
     trusted += [f"{n}: {t}" for n, t in reg.trusted]
+    trusted += [f"assumed contract (used at call sites, not verified): {t}" for t, c in reg.contracts.items() if c.call_only]
     axioms = sorted({a for r in reports for a in r["axioms"]})
     from pyvc.builtins_model import LIBRARY_CONTRACTS
 
